@@ -14,12 +14,14 @@
     (`Member.stamp := s2.infoOf`), the marshaler writes it. A continuation record: Stat refreshes the tracked size FIRST
     (fix 54adc48), then the nested write; if that fails in the same file the old size is put back so that the caller
     removes the whole record (`SW.writeSeg`: `write` then `write`, or `writeFailed`).
-  * createFile — next name from the generator, before-hook, O_EXCL create under the in-progress suffix, name and file are
-    set, then the warcinfo record if a generator is configured.
+  * createFile — next name from the generator; the name on disk is generated name ++ compression suffix (when compressing)
+    ++ in-progress suffix, below the generator's directory (`SW.onDiskName`); before-hook, O_EXCL create, name and file
+    are set, then the warcinfo record if a generator is configured.
   * createWarcInfoRecord — currentWarcInfoId is cleared before the warcinfo record is written (so it is not stamped:
     `⟨0, infoBytes id, none⟩`), set to the new record's id afterwards (`infoOf := some id`), Sync/Stat as in write
     (`curSize := (infoBytes id).length`).
-  * close — file, name and size are reset FIRST (the size is captured in a local), then Close, Rename to the final name,
+  * close — file, name and size are reset FIRST (the size is captured in a local), then Close, Rename to the final name
+    = the name on disk with the in-progress suffix trimmed off its END (`trimSuffix`, theorem `C13_final_name`),
     after-hook with (final name, captured size, currentWarcInfoId) (`Callback ⟨id, s.curSize, s.infoOf⟩`).
 
   `C04_writer_skeleton` (Props/C04skel.lean) states that the skeleton regenerated from /repo on this run is this one. A
@@ -105,10 +107,20 @@ def expectedWriterSkeleton : List (String × List String) := [
     "return res.BytesWritten, res.Err",
     "]",
     "return size, nil"]),
-  ("createFile", ["call w.opts.nameGenerator.NewWarcfileName",
+  ("createFile", ["if w.opts.compress [",
+    "set suffix = w.opts.compressSuffix",
+    "]",
+    "call w.opts.nameGenerator.NewWarcfileName",
+    "set dir, fileName := w.opts.nameGenerator.NewWarcfileName()",
+    "set fileName += suffix",
+    "set path := dir",
+    "if path != \"\" && !strings.HasSuffix(path, \"/\") [",
+    "set path += \"/\"",
+    "]",
     "if w.opts.beforeFileCreationHook != nil [",
     "call w.opts.beforeFileCreationHook",
     "]",
+    "set path += fileName + w.opts.openFileSuffix",
     "call os.OpenFile",
     "onerr-return",
     "set w.currentFileName = fileName",
@@ -147,6 +159,7 @@ def expectedWriterSkeleton : List (String × List String) := [
     "set w.currentFileSize = 0",
     "call f.Close",
     "onerr-return",
+    "set finalFileName := strings.TrimSuffix(f.Name(), w.opts.openFileSuffix)",
     "call fileutil.Rename(f.Name(), finalFileName)",
     "onerr-return",
     "if w.opts.afterFileCreationHook != nil [",
